@@ -26,8 +26,10 @@ RULE = ('cases = (dialect, text) accepted by parse_sql whose tree is a Select / 
         'per visited node (all nodes, at most 48 per tree) plus one replace-all-leaves pass; non-trivial = tree '
         'contains a join, sub-select, CASE, function FROM-argument, window, CTE, DML or set operation; distinct by '
         'the sequence of (position, node class) of the reference walk')
-ASSUMPTIONS = ['textual order is the order of the canonical print of the tree (a window written ORDER BY .. PARTITION '
-               'BY .. is read as PARTITION BY first: the tree does not record the written order)',
+ASSUMPTIONS = ['textual order is judged twice: against the order of the canonical print of the tree (reference walk) and against the '
+               'statement text itself (the visited names and integer / string constants whose spelling occurs exactly once in '
+               'the text must be shown in the order of their positions); the grammars accept the clauses of a window only in the '
+               'canonical order since e19d97f',
                'LIMIT/OFFSET constants, aliases, USING values, column definitions, CTE names, OrderBy / CTE wrapper '
                'objects and Star inside Identifier.parts are open: visiting them is neither required nor forbidden',
                'Update.keys (UPDATE t ON k FROM (select)) are read as expression nodes (required)',
@@ -40,6 +42,7 @@ _Q = {'__nontrivial__': 650, 'judged': 1900, 'has:join': 780, 'has:subselect': 1
       'has:parameter': 650, 'stmt:Insert': 200, 'stmt:Update': 160, 'stmt:Delete': 120, 'stmt:CreateTable': 80,
       'dialect:mysql': 500, 'dialect:sqlite': 500, 'replace-passes': 35000}
 # calibrated on seeds 1..5 (quick, 16 shards): <= 1/3 of the minimum seen; thorough draws 11x as many cases
+_Q['text-order-judged'] = 1000
 FLOORS = {'quick': _Q, 'thorough': {k: v * (5 if k == '__nontrivial__' else 8) for k, v in _Q.items()}}
 N = {'quick': 450, 'thorough': 5000}
 MAXK = 48
@@ -108,6 +111,47 @@ def tree_features(R):
         if cn == 'Parameter':
             f.add('has:parameter')
     return f
+
+
+_LEXCLS = {}
+
+
+def text_positions(d, sql):
+    """{('id', name) | ('const', repr(value)): start index} for every name / literal token whose spelling is unique in the text;
+    None when the text cannot be lexed"""
+    from vf.gens import mutate
+    if d not in _LEXCLS:
+        from mindsdb_sql import get_lexer_parser
+        _LEXCLS[d] = type(get_lexer_parser(d)[0])
+    sp = mutate.lex_spans(_LEXCLS[d], sql)
+    if sp is None:
+        return None
+    out, dup = {}, set()
+    for ty, src, i, _ in sp:
+        k = None
+        if ty == 'ID':
+            k = ('id', src[1:-1] if len(src) > 1 and src[0] == '`' == src[-1] else src)
+        elif ty == 'INTEGER':
+            k = ('const', repr(int(src)))
+        elif ty == 'QUOTE_STRING' and "\\" not in src and "''" not in src[1:-1]:
+            k = ('const', repr(src[1:-1]))
+        if k is None:
+            continue
+        if k in out or k in dup:
+            out.pop(k, None)
+            dup.add(k)
+        else:
+            out[k] = i
+    # a name that is also the spelling of a keyword-ish token elsewhere is not a problem: only ID tokens are keyed
+    return out
+
+
+def leaf_key(node, Identifier, Constant):
+    if isinstance(node, Identifier) and node.parts and isinstance(node.parts[0], str):
+        return ('id', node.parts[0])
+    if type(node) is Constant and isinstance(node.value, (int, str)) and not isinstance(node.value, bool):
+        return ('const', repr(node.value))
+    return None
 
 
 NONTRIVIAL = {'has:join', 'has:subselect', 'has:case', 'has:from_arg', 'has:window', 'has:cte', 'has:dml', 'has:setop'}
@@ -278,6 +322,26 @@ def judge(case, col):
                         f'at visit #{p}: expected the node at {exp}, visitor got the node at {got} '
                         f'(closest listed deviations: {list(S)})', ['with:' + x for x in S])
 
+    # ---- (a') order against the TEXT itself (independent of the reference walk's own field order): the visited leaf nodes
+    # (names, constants) whose spelling occurs exactly once in the statement must come in the order of their positions
+    if not crashed:
+        pos_of = text_positions(d, sql)
+        if pos_of is not None:
+            located = []
+            for node, _, _ in seen:
+                k = leaf_key(node, Identifier, Constant)
+                if k is not None and pos_of.get(k) is not None:
+                    located.append((pos_of[k], k, node))
+            if len(located) >= 2:
+                classes.append('text-order-judged')
+                for (pa, ka, na), (pb, kb, nb) in zip(located, located[1:]):
+                    if pb < pa and id(na) != id(nb):
+                        sa_, sb_ = slot_of.get(id(na), '?'), slot_of.get(id(nb), '?')
+                        rec('order-vs-text', f'{sa_}->{sb_}',
+                            f'{ka[1]!r} (text position {pa}, at {sa_}) is shown to the visitor before {kb[1]!r} (text position {pb}, '
+                            f'at {sb_}), which is written earlier', ['text-order'])
+                        break
+
     # ---- (b) replace node k, for every visited k;  (c) replace all leaves
     passes = 0
     if not crashed and clone_ok and not damaged:
@@ -396,7 +460,17 @@ WITH_SETOP = ['with a as (select x from t where y = 1) (select * from a union se
               'with a as (select 1 as k), b as (select k from a) (select * from b except select * from a)',
               'with a as (select case when x > 1 then 2 end as c from t) (select c from a union all select 3)',
               'select case a when 1 then 2 end, case when b then c end from t',
-              'with a as (select x from t) ((select * from a) union (select * from a)) union select 1']
+              'with a as (select x from t) ((select * from a) union (select * from a)) union select 1',
+              # clause orders the grammars accept: the text decides what comes first (judged by the text-order clause)
+              'select sum(a) over (partition by y order by x) from t', 'select sum(a) over (order by x partition by y) from t',
+              'select sum(a) over (order by x desc partition by y, z) as w, b from t where c = 1',
+              'select k, (select m from u where n = 2) from t where c in (select p from v) order by q',
+              'insert into t (c1, c2) select d1, d2 from u where d3 = 7',
+              'update t set c1 = v1, c2 = (select m from u) where c3 = 5',
+              'update t set c1 = s.v1 from (select v1, v2 from u where v3 = 4) as s where t.c2 = s.v2',
+              'delete from t where c1 = 1 and c2 in (select m from u where n = 2)',
+              'create table n1 (select a1, a2 from t1 where a3 = 3)',
+              'select f(a1, a2) from t1 join t2 on b1 = b2 left join t3 on c1 = c2 where d1 = 1 group by e1 having g1 > 2 order by h1']
 
 
 def run_shard(col, k, nshards, tier, seed):
